@@ -1,0 +1,14 @@
+//go:build verif
+
+package imapclient
+
+// VerifHook, when set by a test harness, is called at the linearization
+// points of the client (see verifPoint call sites). It may block to control
+// the schedule.
+var VerifHook func(point, tag string)
+
+func verifPoint(point, tag string) {
+	if h := VerifHook; h != nil {
+		h(point, tag)
+	}
+}
